@@ -22,6 +22,7 @@ type c07Query struct {
 	MaxKeys   int    `json:"max_keys"` // -1 = absent
 	Marker    string `json:"marker,omitempty"` // marker (V1) / start-after (V2)
 	Walk      bool   `json:"walk,omitempty"`   // follow continuation markers to the end
+	OwnPrefix bool   `json:"own_prefix,omitempty"` // probe: prefix equal to the key of a leaf directory object
 }
 
 type c07Prog struct {
@@ -93,6 +94,10 @@ func c07GenQuery(r *rand.Rand, keys []string) c07Query {
 			q.Prefix = c07Segs[r.IntN(len(c07Segs))]
 		}
 	}
+	if r.IntN(8) == 0 {
+		// probe for internal bookkeeping names
+		q.Prefix = []string{".sgwtmp", ".sgwtmp/", ".sgwtmp/m", ".sgwtmp/multipart/", ".s", ".sgwtmp/leftover"}[r.IntN(6)]
+	}
 	for !utf8Valid(q.Prefix) && len(q.Prefix) > 0 {
 		q.Prefix = q.Prefix[:len(q.Prefix)-1]
 	}
@@ -121,6 +126,21 @@ func (c07) Gen(seed uint64, run int, tier string) *core.Case {
 		q.Walk = true
 		q.MaxKeys = 1 + r.IntN(4)
 		p.Queries = append(p.Queries, q)
+	}
+	// a leaf directory object must be listed under its own prefix
+	for _, k := range p.Keys {
+		if strings.HasSuffix(k, "/") {
+			leaf := true
+			for _, o := range p.Keys {
+				if o != k && (strings.HasPrefix(o, k) || strings.HasPrefix(k, o+"/")) {
+					leaf = false
+				}
+			}
+			if leaf {
+				p.Queries = append(p.Queries, c07Query{V2: r.IntN(2) == 0, Prefix: k, Delim: []string{"", "/"}[r.IntN(2)], MaxKeys: -1, OwnPrefix: true})
+				break
+			}
+		}
 	}
 	c := &core.Case{Check: "C07", Property: "C07", Seed: seed, Cfg: cfg}
 	c.SetP(&p)
@@ -328,8 +348,12 @@ func (c07) Exec(c *core.Case) (out *core.Outcome) {
 			// unchanged tree whatever the symptom; everything else is reported by symptom
 			sig := fmt.Sprintf("C07/plain/%s/%s/delim=%s", api, kind, delimClass(q.Delim))
 			switch {
-			case kind == "internal-name" || kind == "wrong-size-or-etag" || kind == "request-fails":
+			case kind == "internal-name":
+				sig = fmt.Sprintf("C07/internal-name/prefix=%s/delim=%s", q.Prefix, delimClass(q.Delim))
+			case kind == "wrong-size-or-etag" || kind == "request-fails":
 				sig = fmt.Sprintf("C07/%s/%s", kind, feature(keys, q))
+			case q.OwnPrefix:
+				sig = fmt.Sprintf("C07/directory-object-under-its-own-prefix/%s/delim=%s", kind, delimClass(q.Delim))
 			case feature(keys, q) != "plain":
 				sig = "C07/" + feature(keys, q)
 			}
